@@ -511,7 +511,7 @@ func runConc(rc *RunCtx, prop string) {
 	// type "tz", which has a pipeline of plain nodes that is not part of the history
 	// in some runs every node's Close fails (a removal then reports the failure AND has removed the node;
 	// several nodes closed by one RemovePipelineAndNodes all report)
-	closeFails := prop == "C04" && tp.Choose(3, "close-fails") == 0
+	closeFails := (prop == "C04" || prop == "C05") && tp.Choose(3, "close-fails") == 0
 	nesting := tp.Choose(3, "nesting-nodes") == 0
 	if nesting {
 		broker.RegisterNode("tzf", &markNode{label: "tzf", kind: el.NodeTypeFormatter, sh: sh})
@@ -593,7 +593,7 @@ func runConc(rc *RunCtx, prop string) {
 		case "C07":
 			w = []int{6, 1, 1, 0, 1, 1, 0, 1, 0, 0, 0, 8, 0} // threshold setters: they create the event type's graph, as a first registration does
 		case "C05":
-			w = []int{2, 1, 1, 1, 0, 0, 0, 0, 0, 1, 0, 8, 6}
+			w = []int{2, 1, 1, 2, 2, 0, 0, 0, 0, 1, 0, 8, 6}
 		default:
 			w = []int{5, 3, 3, 3, 2, 2, 1, 2, 1, 2, 2, 7, 1}
 		}
